@@ -68,7 +68,8 @@ func c04Case(c *core.Ctx, w WLCase, maxLeaves int64) {
 		return
 	}
 	if st.Unannounced > 0 {
-		c.Incomplete("unannounced reads in %s: uniformity of those draws not decided", mustJSON(w))
+		c.Incomplete("raw 32-bit reads outside the bounded draw in %s: exact probabilities not decided (C05 still checks the structure of every explored password, the coverage pass every coordinate)", mustJSON(w))
+		return
 	}
 	if d.PanMass.Sign() != 0 {
 		c.Violation(key+" panic", "Generate panicked: "+d.PanicMsg, map[string]interface{}{"case": w, "outcomes": d.PanicEx})
